@@ -138,7 +138,7 @@ def run_case(case, ctx):
             Xf = X * (rng.random(shape) < 0.7)
             M0 = ttb.ktensor([rng.random((s, R)) for s in shape])
             # float data, and count-like data held in an integer element type (dense and sparse)
-            for Xs in (Xf, np.round(np.abs(Xf) * 6.0).astype([np.int64, np.int32][case["cseed"] % 2])):
+            for Xs in (Xf, np.round(np.abs(Xf) * 6.0).astype([np.int64, np.int32][gen.pick(case) % 2])):
                 ctx.feat(data_type=str(Xs.dtype))
                 a = _quiet(ttb.cp_als, ttb.tensor(Xs.copy()), R, init=M0.copy(), printitn=0, **kw)
                 S = gen.mk_sptensor(ttb, Xs, gen.stored_order(rng, int(np.count_nonzero(Xs)), "shuffled"), dtype=(Xs.dtype if Xs.dtype != float else None))
@@ -207,7 +207,7 @@ def run_case(case, ctx):
         op = "cp_apr"
         ctx.feat(sub=sub)
         Xc = rng.poisson(denote(Kt) * 3).astype(float)
-        variant = [None, "empty-slice", "empty-slice+warm", "warm"][case["cseed"] % 4] if not case.get("zero_guess") else None
+        variant = [None, "empty-slice", "empty-slice+warm", "warm"][gen.pick(case) % 4] if not case.get("zero_guess") else None
         if variant and "empty-slice" in variant:
             # slices without any count: the sparse code paths never see them, the dense ones do
             Xc[0] = 0
@@ -278,13 +278,13 @@ def run_case(case, ctx):
             opt_used, opt_fresh = mk(), mk()
             if sub == "lbfgsb":
                 opt_used, opt_fresh = LBFGSB(maxiter=300), LBFGSB(maxiter=300)
-            other_shape = tuple(int(x) for x in rng.integers(6, 9, size=3)) if case["cseed"] % 2 else (2, 2)
+            other_shape = tuple(int(x) for x in rng.integers(6, 9, size=3)) if gen.pick(case) % 2 else (2, 2)
             Kt2 = ttb.ktensor([rng.random((s_, 2)) for s_ in other_shape])
             seeded(ttb.gcp_opt, ttb.tensor(denote(Kt2) + 0.05 * rng.standard_normal(other_shape)), 2, Objectives.GAUSSIAN, opt_used, printitn=0)
             M0g = ttb.ktensor([rng.random((s_, R)) for s_ in shape])
             a = seeded(ttb.gcp_opt, T, R, Objectives.GAUSSIAN, opt_used, init=M0g.copy(), printitn=0)
             b = seeded(ttb.gcp_opt, T, R, Objectives.GAUSSIAN, opt_fresh, init=M0g.copy(), printitn=0)
-            _cmp(ctx, op, denote(a[0]), denote(b[0]), "optimizer object used before vs fresh optimizer object", exact=True, other=("larger" if case["cseed"] % 2 else "smaller"))
+            _cmp(ctx, op, denote(a[0]), denote(b[0]), "optimizer object used before vs fresh optimizer object", exact=True, other=("larger" if gen.pick(case) % 2 else "smaller"))
         elif rel == "seed-sparse":
             # sparse data and a sampler that takes fewer nonzeros / zeros than there are: every random draw of the run (starting guess,
             # sampled nonzeros, sampled zeros) must come from the global stream the seed controls
@@ -293,7 +293,7 @@ def run_case(case, ctx):
             Xs = np.where(rng.random(shape) < 0.5, np.round(np.abs(X) * 4 + 1), 0.0)
             S = gen.mk_sptensor(ttb, Xs, gen.stored_order(rng, int(np.count_nonzero(Xs)), "shuffled"))
             nnz = int(S.nnz)
-            kind = [Samplers.STRATIFIED, Samplers.SEMISTRATIFIED][case["cseed"] % 2]
+            kind = [Samplers.STRATIFIED, Samplers.SEMISTRATIFIED][gen.pick(case) % 2]
             ctx.feat(sampler=kind.name)
 
             def smp():
